@@ -680,8 +680,32 @@ func (w *World) CheckCleanFailure(out *Outcome, o *Obs) []Violation {
 	// not Run's business)
 	fired := ""
 	runnerFault := false
+	// a failure inside a lookup whose caller copes with the error has been delivered to the
+	// application: that Run goes on is the application's doing
+	type span struct{ from, to int }
+	var tolerated []span
+	{
+		open := map[string]int{}
+		for _, e := range evs {
+			switch e.Kind {
+			case "init-lookup":
+				open[e.Subj+">"+e.Detail] = e.Seq
+			case "init-lookup-tolerated":
+				tolerated = append(tolerated, span{open[e.Subj+">"+e.Detail], e.Seq})
+			}
+		}
+	}
 	for _, e := range evs {
 		if e.Detail != "FAULT" {
+			continue
+		}
+		inTolerated := false
+		for _, t := range tolerated {
+			if t.from < e.Seq && e.Seq < t.to {
+				inTolerated = true
+			}
+		}
+		if inTolerated {
 			continue
 		}
 		switch e.Kind {
